@@ -36,6 +36,85 @@ PID = 'C02'
 #   ('attr', base, name) ('mcall', recv, name, args) ('lambda', key) + whatever the model introduces
 
 
+def _holders(prog):
+    """module globals that hold an instance of a repository class -> class qname.
+
+    ``dawgie.pl.schedule.ae.feedbacks`` has to be read as ``Construct.feedbacks``; the engine knows the class of a global only
+    when it is stored as ``<module>.<name> = Class(...)`` in one statement.  Here every store into a module global (attribute
+    store through an imported module, ``global`` declaration, module level assignment) is followed to its value: a call of a
+    repository class, a local bound once to such a call, or another holder.  A global that receives instances of different
+    classes is not a holder (``None`` placeholders do not count)."""
+    cache = prog.__dict__.setdefault('_c02_holders', None)
+    if cache is not None:
+        return cache
+    stores = []  # (holder symbol, value expr, Func or None, Module)
+    for m in prog.modules.values():
+        for name, vals in m.globals.items():
+            for v in vals:
+                stores.append((m.name + '.' + name, v, None, m))
+    for f in prog.funcs.values():
+        for n in f.own_nodes():
+            if not isinstance(n, ast.Assign):
+                continue
+            for t in n.targets:
+                if not isinstance(t, (ast.Name, ast.Attribute)):
+                    continue
+                sym = prog._resolve_expr(t, f.module, f)
+                if not sym or sym.startswith(('local:', 'external:', 'self.')):
+                    continue
+                parts = sym.rsplit('.', 1)
+                if len(parts) == 2 and parts[0] in prog.modules and sym not in prog.funcs and sym not in prog.classes:
+                    stores.append((sym, n.value, f, f.module))
+    by = {}
+    for sym, v, f, m in stores:
+        by.setdefault(sym, []).append((v, f, m))
+    res = {}
+    for _ in range(3):  # holders that copy another holder
+        changed = False
+        for sym, lst in by.items():
+            classes = set()
+            for v, f, m in lst:
+                if isinstance(v, ast.Constant) and v.value is None:
+                    continue
+                c = None
+                if isinstance(v, ast.Call):
+                    c = prog._resolve_expr(v.func, m, f)
+                    c = c if c in prog.classes else None
+                elif isinstance(v, ast.Name) and f is not None and prog._resolve_expr(v, m, f) == 'local:' + v.id:
+                    c = prog._local_instance(f, v.id)
+                elif isinstance(v, (ast.Name, ast.Attribute)):
+                    c = res.get(prog._resolve_expr(v, m, f))
+                classes.add(c)
+            if len(classes) == 1 and None not in classes and res.get(sym) != next(iter(classes)):
+                res[sym] = next(iter(classes))
+                changed = True
+        if not changed:
+            break
+    prog.__dict__['_c02_holders'] = res
+    return res
+
+
+def _via_holder(prog, r):
+    """resolved symbol '<holder>.<member>...' -> '<Class member>...' (same convention as Program.resolve_expr for singletons)"""
+    if not r or r.startswith(('local:', 'external:')):
+        return r
+    for k, cls in _holders(prog).items():
+        if r.startswith(k + '.'):
+            rest = r[len(k) + 1 :].split('.')
+            meth = prog.method(cls, rest[0])
+            base = meth.qname if meth is not None else cls + '.' + rest[0]
+            return '.'.join([base] + rest[1:])
+    return r
+
+
+def _resolve(prog, expr, func):
+    return _via_holder(prog, prog.resolve_in(expr, func))
+
+
+def _callee(prog, call, func):
+    return _via_holder(prog, prog.callee(call, func))
+
+
 def _eget(fs, k, d=None):
     for a, b in fs:
         if a == k:
@@ -303,7 +382,7 @@ class _Sym(Flow):
             v = _eget(st[0], e.id)
             if v is not None:
                 return [(v, st)]
-            sym = self.prog.resolve_in(e, self.f)
+            sym = _resolve(self.prog, e, self.f)
             if sym and not sym.startswith('local:'):
                 mv = self.m.symbol(sym)
                 return [(mv if mv is not None else ('sym', sym), st)]
@@ -313,7 +392,7 @@ class _Sym(Flow):
             while isinstance(root, ast.Attribute):
                 root = root.value
             if isinstance(root, ast.Name) and _eget(st[0], root.id) is None:
-                sym = self.prog.resolve_in(e, self.f)
+                sym = _resolve(self.prog, e, self.f)
                 if sym and not sym.startswith('local:'):
                     mv = self.m.symbol(sym)
                     return [(mv if mv is not None else ('sym', sym), st)]
@@ -690,7 +769,7 @@ class _Sym(Flow):
             else:
                 if as_method:
                     sym = vals[0][1] + '.' + fn.attr
-                    csym = self.prog.callee(c, self.f)
+                    csym = _callee(self.prog, c, self.f)
                     if csym and not csym.startswith('local:'):
                         sym = csym
                     out.extend(self.function(c, sym, a, kw, s))
@@ -701,7 +780,7 @@ class _Sym(Flow):
                     elif fv is not None:
                         out.append((('opaque', norm(c)[:80]), s))
                     else:
-                        out.extend(self.function(c, self.prog.callee(c, self.f), a, kw, s))
+                        out.extend(self.function(c, _callee(self.prog, c, self.f), a, kw, s))
                 else:
                     out.append((('opaque', norm(c)[:80]), s))
         return out
@@ -1313,7 +1392,9 @@ class _Org(Flow):
 
 def _organize_rule(ctx, rep, r):
     prog = ctx.prog
-    f = prog.func(ORGANIZE)
+    # normal form: helpers extracted from organize after the rules were written (e.g. the todo extension of one node) are
+    # spliced back into the node loop, so the iteration below sees their work-set operations and guards
+    f = prog.nfunc(ORGANIZE)
     params = [x.arg for x in f.node.args.args]
     if len(params) < 3:
         raise AnalysisError('schedule.organize no longer has (task_names, runid, targets, ...)')
@@ -1373,10 +1454,10 @@ def _organize_rule(ctx, rep, r):
         roots_ok = names_ok = False
         for l in encl:
             if isinstance(l.target, ast.Name) and isinstance(recv, ast.Name) and l.target.id == recv.id:
-                roots_ok = prog.resolve_in(l.iter, f) == 'dawgie.pl.dag.Construct.at' if isinstance(l.iter, (ast.Name, ast.Attribute)) else False
+                roots_ok = _resolve(prog, l.iter, f) == 'dawgie.pl.dag.Construct.at' if isinstance(l.iter, (ast.Name, ast.Attribute)) else False
             if isinstance(l.target, ast.Name) and isinstance(argn, ast.Name) and l.target.id == argn.id:
                 names_ok = cls(l.iter) == 'NAMES'
-        early = [n for l in encl + [loop] for n in ast.walk(l) if isinstance(n, (ast.Break, ast.Return))]
+        early = [n for l in encl + [loop] for n in _loop_exits(l)]
         r.instance()
         r.check(
             roots_ok and names_ok and not early and isinstance(loop.target, ast.Name),
@@ -1443,6 +1524,37 @@ def _organize_rule(ctx, rep, r):
     if not rebinds and any(o.op in ('append', 'insert') for o in qops):
         okq, det = True, 'nodes are appended to the queue directly'
     r.check(okq, f'{f.qname}:queue-keeps-pending-nodes', where(f, rebinds[0].node if rebinds else None), det, f'a located node with pending targets does not end up in the work queue: {det}')
+
+
+def _loop_exits(loop):
+    """the statements that end `loop` before its iterable is exhausted: every return inside it and the breaks that belong to
+    it (a break of a loop nested in the body -- e.g. the one-shot wrapper of a spliced helper -- ends only that inner loop)"""
+    out = []
+
+    def walk(stmts, owned):
+        for s in stmts:
+            if isinstance(s, ast.Break):
+                if owned:
+                    out.append(s)
+            elif isinstance(s, ast.Return):
+                out.append(s)
+            elif isinstance(s, (ast.For, ast.AsyncFor, ast.While)):
+                walk(s.body, False)
+                walk(s.orelse, owned)
+            elif isinstance(s, (ast.FunctionDef, ast.AsyncFunctionDef, ast.ClassDef)):
+                continue
+            else:
+                for fld in ('body', 'orelse', 'finalbody'):
+                    v = getattr(s, fld, None)
+                    if isinstance(v, list):
+                        walk(v, owned)
+                for h in getattr(s, 'handlers', ()):
+                    walk(h.body, owned)
+                for c in getattr(s, 'cases', ()):
+                    walk(c.body, owned)
+
+    walk(loop.body, True)
+    return out
 
 
 def _single_expr_of(fn, argname):
@@ -2421,6 +2533,11 @@ _U = (_S, 'update')
 _O = (_S, 'organize')
 _RF = 'util/refs.py'
 _SM = 'db/shelve/model.py'
+# the todo extension of organize's node loop and the rest of the function up to the next definition (one contiguous text, so
+# that a variant can move the former into a module level helper placed after organize)
+_ORG_IF = "                if _is_asp(n):\n                    n.get('todo').add('__all__')\n                elif '__all__' in targets:\n                    n.get('todo').update(dawgie.db.targets())\n                else:\n                    n.get('todo').update(targets)\n"
+_ORG_REST = "                pass\n            pass\n        pass\n    log.debug('organize() - setting queue')\n    dawgie.pl.schedule.que = sorted(\n        # entries already on the queue stay (a unit that is executing may have had\n        # its target purged: its reply still has to find the job); a node is newly\n        # queued only with work\n        filter(\n            lambda j: j in que or j.get('todo') or j.get('doing'),\n            jobs.values(),\n        ),\n        key=lambda i: i.get('level'),\n    )\n    return\n\n\n"
+_ORG_TAIL = _ORG_IF + _ORG_REST
 _COMPLETE = 'dawgie.pl.schedule.complete(job, msg.runid, inc, msg.timing, state)\n'
 VARIANTS = [
     # R-C02-1
@@ -2493,6 +2610,9 @@ VARIANTS = [
     V('organize: queue built through a local list', 'N', *_O, "dawgie.pl.schedule.que = sorted(\n        filter(lambda j: j.get('todo') or j.get('doing'), jobs.values()),\n        key=lambda i: i.get('level'),\n    )", "active = [j for j in jobs.values() if j.get('todo') or j.get('doing')]\n    dawgie.pl.schedule.que = sorted(active, key=lambda i: i.get('level'))", None),
     V('organize: aspect test inlined', 'N', *_O, 'if _is_asp(n):', "if n.get('factory').__name__ == dawgie.Factories.analysis.name:", None),
     V('organize: targets defaulted with or', 'N', *_O, 'targets = targets if targets else set()', 'targets = targets or set()', None),
+    V('build: new DAG held in a local before it is published', 'N', _S, 'build', 'dawgie.pl.schedule.ae = dawgie.pl.dag.Construct(factories)\n    promote.ae = dawgie.pl.schedule.ae', 'engine = dawgie.pl.dag.Construct(factories)\n    dawgie.pl.schedule.ae = engine\n    promote.ae = engine', None),
+    V('organize: todo extension extracted into a module helper', 'N', _S, None, _ORG_TAIL, "_add_targets(n, targets)\n" + _ORG_REST + "def _add_targets(n, targets):\n    # extend the todo of a node\n    if _is_asp(n):\n        n.get('todo').add('__all__')\n    elif '__all__' in targets:\n        n.get('todo').update(dawgie.db.targets())\n    else:\n        n.get('todo').update(targets)\n    return\n\n\n", None),
+    V('organize: extracted todo helper returns early for aspect nodes', 'B', _S, None, _ORG_TAIL, "_add_targets(n, targets)\n" + _ORG_REST + "def _add_targets(n, targets):\n    if _is_asp(n):\n        return\n    if '__all__' in targets:\n        n.get('todo').update(dawgie.db.targets())\n    else:\n        n.get('todo').update(targets)\n    return\n\n\n", 'R-C02-2'),
     V('_priors with early returns', 'N', _S, '_priors', '    if isinstance(node, dawgie.Algorithm):\n        result = node.previous()', 'if isinstance(node, dawgie.Algorithm):\n        return node.previous()', None),
     V('as_vref with an explicit inner loop', 'N', _RF, 'as_vref', '            yield from svref2vref(reference)', 'for v in svref2vref(reference):\n                yield v', None),
     V('report extracted into a same-class helper', 'N', _SM, 'Interface', '''self._bot().new_values(\n                        (\n                            '.'.join(\n                                [str(runid), tn, task, alg.name(), sv.name(), k]\n                            ),\n                            isnew,\n                        )\n                    )\n                    pass\n                pass\n        finally:\n            self._log.debug("update: Releaseing for %s", name)\n            comms.release(lok)\n            pass\n        return\n\n    def _update_msv(self, msv):''', '''self.__report(alg, sv, k, isnew)\n                    pass\n                pass\n        finally:\n            self._log.debug("update: Releaseing for %s", name)\n            comms.release(lok)\n            pass\n        return\n\n    def __report(self, alg, sv, vn, isnew):\n        name = '.'.join([str(self._runid()), self._tn(), self._task(), alg.name(), sv.name(), vn])\n        self._bot().new_values((name, isnew))\n        return\n\n    def _update_msv(self, msv):''', None),
